@@ -248,6 +248,11 @@ class QueryPlanner:
         # projects = set()
         integrations = set()
 
+        # a bare CTE name is a reference to the CTE: neither a table of some integration nor a mindsdb object
+        cte_names = set(self.cte_results)
+        if getattr(query, 'cte', None):
+            cte_names.update(cte.name.parts[-1] for cte in query.cte)
+
         def find_objects(node, is_table, **kwargs):
             if isinstance(node, Function):
                 if node.namespace is not None or node.op.lower() in ('llm',):
@@ -255,6 +260,9 @@ class QueryPlanner:
 
             if is_table:
                 if isinstance(node, ast.Identifier):
+                    if len(node.parts) == 1 and node.parts[0] in cte_names:
+                        return
+
                     integration, _ = self.resolve_database_table(node)
 
                     if self.is_predictor(node):
@@ -270,18 +278,6 @@ class QueryPlanner:
                     mdb_entities.append(node)
 
         query_traversal(query, find_objects)
-
-        # cte names are not mdb objects
-        if isinstance(query, Select) and query.cte:
-            cte_names = [
-                cte.name.parts[-1]
-                for cte in query.cte
-            ]
-            mdb_entities = [
-                item
-                for item in mdb_entities
-                if '.'.join(item.parts) not in cte_names
-            ]
 
         return {
             'mdb_entities': mdb_entities,
